@@ -40,10 +40,17 @@ func (te *TypeEnv) structName(t types.Type) string {
 		}
 		if ta := n.TypeArgs(); ta != nil && ta.Len() > 0 {
 			var as []string
+			allParams := true
 			for i := 0; i < ta.Len(); i++ {
 				as = append(as, shortType(ta.At(i)))
+				if tp, ok := ta.At(i).(*types.TypeParam); !ok || tp.Index() != i {
+					allParams = false
+				}
 			}
-			s += "[" + strings.Join(as, ",") + "]"
+			// inside a generic body the receiver type is the generic type applied to its own parameters: same name as the origin
+			if !allParams {
+				s += "[" + strings.Join(as, ",") + "]"
+			}
 		}
 		return sanitize(s)
 	}
